@@ -734,3 +734,84 @@ def prove(c: Ctx, prop, extra=(), timeout_ms=20000):
         # property literally false on this path: any model of the path is a counterexample
         return check_sat(c.all_constraints() + list(extra), timeout_ms)
     return check_sat(c.all_constraints() + list(extra) + [z3.Not(prop)], timeout_ms)
+
+
+# --------------------------------------------------------------------------------------------------
+# exact IEEE-754 double proxy (only comparisons are needed where IEEE behaviour is the subject: C07, C19)
+# --------------------------------------------------------------------------------------------------
+FP64 = z3.Float64()
+
+
+def fpv(x):
+    return z3.FPVal(float(x), FP64)
+
+
+class SymFP:
+    __slots__ = ('t',)
+
+    def __init__(self, t):
+        self.t = t
+
+    def _l(self, o):
+        if isinstance(o, SymFP):
+            return o.t
+        if isinstance(o, (int, float, np.integer, np.floating)) and not isinstance(o, bool):
+            return fpv(o)
+        return None
+
+    def _c(self, o, f):
+        l = self._l(o)
+        return NotImplemented if l is None else SymBool(f(self.t, l))
+
+    def __lt__(self, o):
+        return self._c(o, z3.fpLT)
+
+    def __gt__(self, o):
+        return self._c(o, z3.fpGT)
+
+    def __le__(self, o):
+        return self._c(o, z3.fpLEQ)
+
+    def __ge__(self, o):
+        return self._c(o, z3.fpGEQ)
+
+    def __eq__(self, o):
+        return self._c(o, z3.fpEQ)
+
+    def __ne__(self, o):
+        return self._c(o, lambda a, b: z3.Not(z3.fpEQ(a, b)))
+
+    __hash__ = None
+
+    def __mul__(self, o):
+        l = self._l(o)
+        return NotImplemented if l is None else SymFP(z3.fpMul(z3.RNE(), self.t, l))
+
+    __rmul__ = __mul__
+
+    def __truediv__(self, o):
+        l = self._l(o)
+        return NotImplemented if l is None else SymFP(z3.fpDiv(z3.RNE(), self.t, l))
+
+    def __float__(self):
+        raise Realize('float() of SymFP')
+
+    def __str__(self):
+        return '<symbolic double>'
+
+    __repr__ = __str__
+
+    def __format__(self, spec):
+        return '<symbolic double>'
+
+
+def fp_model_value(m, t):
+    """python float for the value of FP term t in model m (exact, via the IEEE bit pattern)."""
+    import struct
+    v = m.eval(t, model_completion=True)
+    bv = z3.simplify(z3.fpToIEEEBV(v))
+    if z3.is_bv_value(bv):
+        return struct.unpack('>d', bv.as_long().to_bytes(8, 'big'))[0]
+    if z3.is_fp_value(v) and v.isNaN():
+        return float('nan')
+    return None
